@@ -19,7 +19,13 @@ RULE = ("cases: XML topology (1..3 molecule types, 1..5 beads each, 2..120 "
         "cg_bonded) or <bonded> in the topology, LAMMPS .dump / .gro "
         "trajectories of 1..12 frames with per-frame box edges, unwrapped "
         "molecules; options: 0..3 pair interactions (same/cross type, '*'), "
-        "bond/angle/dihedral groups, angular three-body, bin ranges from 0 and "
+        "bond/angle/dihedral groups, angular three-body with the type patterns "
+        "AAA / ABB / ABC / AAB / ABA of (centre, neighbour, neighbour) - every "
+        "fourth case over all shards carries one, the patterns in turn, in "
+        "systems with 2..3 bead types; expected = centre angles of exactly the "
+        "triples (centre i of type1; j of type2, k of type3, i,j,k distinct, "
+        "d_ij and d_ik below the cut-off, unordered {j,k} when type2 == type3, "
+        "no pair of the triple excluded), keys threebody/<pattern>/..., bin ranges from 0 and "
         "above, steps 0.005..0.5, --include-intra (max_intra), --do-imc (1..2 "
         "groups), --block-length 1..4, --first-frame/--nframes, --nt 1..3. "
         "Every frame keeps all judged values >= 1e-6 away from a bin edge / "
